@@ -203,7 +203,22 @@ def worker(task: Tuple) -> Dict[str, Any]:
     import os
 
     ex = tracebmc.Extraction(cls, constructor_call(cname), (os.path.dirname(measured.__file__),))
-    traces, codes = ex.all_traces()
+    try:
+        traces, codes = ex.all_traces()
+    except symnum.HarnessError as e:
+        if "never consults the intern table" not in str(e):
+            raise
+        # the constructor answers a repeated call without looking at the table (state of its own
+        # besides the table): outside the single-table step system.  Fallback, NOT a solver verdict:
+        # every one-preemption schedule of two threads through the real constructor
+        hit = preemption_sweep(cname, store_lines)
+        if hit is None:
+            raise
+        return {"class": cname, "result": "sat", "fallback": "one-preemption sweep of the real constructor "
+                "(the step system does not apply: " + str(e) + ")", "schedule": hit[0], "replay": hit[1],
+                "witness": "sat", "threads": 2, "steps": 0, "solver_s": 0.0, "trace": [], "variables": 0, "horizon": 0,
+                "rets": "different objects", "table": "one of them", "ast_model": "not applicable (fallback)",
+                "table_type": type(cls._known).__name__, "setdefault_atomic": atomic, "functions": [], "program": []}
     tracebmc.annotate(traces, codes, atomic, cls)
     res = tracebmc.search(traces, threads, timeout_ms=120000)
     res["class"] = cname
@@ -231,6 +246,42 @@ def worker(task: Tuple) -> Dict[str, Any]:
     if res["result"] == "sat":
         res["replay"] = replay(cname, threads, res["schedule"], res["trace"], store_lines, code_spec)
     return res
+
+
+SWEEP_EXPRS = {"Unit": [("P = measured.Prefix(10, 111)", "P * A"), ("", "A * B"), ("", "A ** 5")]}
+
+
+def preemption_sweep(cname: str, store_lines: List[int]) -> Any:
+    """Thread 0 runs k lines of the constructor, thread 1 runs to completion, thread 0 finishes: for
+    every k, on the real library (fresh process each), for each way of reaching the constructor."""
+    import os
+    from concurrent.futures import ThreadPoolExecutor
+
+    setup, expr, clsc = SETUP[cname]
+    jobs = []
+    for extra, e2 in SWEEP_EXPRS.get(cname, [("", expr)]):
+        for k in range(0, 40):
+            sched = [0] * k + [1] * 200 + [0] * 200
+            body = replay(cname, 2, sched, [], store_lines).replace(setup, setup + "\n" + extra, 1)
+            body = body.replace(f"results[k] = {expr}", f"results[k] = {e2}").replace(f"later = {expr}", f"later = {e2}")
+            jobs.append((sched, body))
+    os.makedirs(report.REPLAY_DIR, exist_ok=True)
+
+    def probe(job: Tuple) -> bool:
+        sched, body = job
+        tmp = os.path.join(report.REPLAY_DIR, f"_c20_sweep_{os.getpid()}_{abs(hash(body))}.py")
+        with open(tmp, "w") as f:
+            f.write("import sys\n" + body)
+        ok, _ = report.run_replay(tmp)
+        os.remove(tmp)
+        return ok
+
+    with ThreadPoolExecutor(8) as tp:
+        oks = list(tp.map(probe, jobs))
+    for ok, job in zip(oks, jobs):
+        if ok:
+            return job
+    return None
 
 
 HELPERS = {
